@@ -487,9 +487,9 @@ func init() {
 	vfRegister(&vfProp{
 		ID: "C40", Level: "exploration", ReplayClass: "decision-exact",
 		Gen: c40Gen, Run: c40RunRace,
-		Rule:  rule + "; race-detector build, real goroutines in real time, perturbation (yield / 1-200 us sleep) at every instrumented lock, atomic and receive site; non-trivial = the program ran to its end, distinct = hash of the per-goroutine call logs",
-		Real:  []string{"both PeerConnections with real ICE, DTLS, SCTP, SRTP", "vnet", "Go race detector"},
-		Stub:  []string{"network: vnet in-process, no faults", "signaling: in-process"},
+		Rule: rule + "; race-detector build, real goroutines in real time, perturbation (yield / 1-200 us sleep) at every instrumented lock, atomic and receive site; non-trivial = the program ran to its end, distinct = hash of the per-goroutine call logs",
+		Real: []string{"both PeerConnections with real ICE, DTLS, SCTP, SRTP", "vnet", "Go race detector"},
+		Stub: []string{"network: vnet in-process, no faults", "signaling: in-process"},
 		Assumptions: []string{"the interleaving is the Go runtime's (perturbed), not chosen by the seed: the race detector's happens-before analysis does not need the racing accesses to collide in time, and a schedule the shim controlled would add synchronisation that hides races",
 			"a run that does not finish within 45 s of real time although nothing waits for the network is reported as calls that do not return"},
 	})
